@@ -98,6 +98,10 @@ def run(res, tier, seed, driver_ok):
                         arm.move(tm(b3)); hist.append(['move', b3])
         mins = np.maximum(np.asarray(arm.joint_mins, dtype=float), -math.pi); maxs = np.minimum(np.asarray(arm.joint_maxs, dtype=float), math.pi)
         th = np.array([rnd.uniform(mins[i] * 0.9, maxs[i] * 0.9) for i in range(nj)])
+        if rnd.random() < 0.25:       # some joints almost, but not exactly, at zero (well outside the 1e-6 cut-off of the exponential)
+            for j_ in rnd.sample(range(nj), min(nj, rnd.randint(1, 2))):
+                if mins[j_] < 0 < maxs[j_]:
+                    th[j_] = rnd.choice([-1, 1]) * rnd.choice([8e-5, 3e-5, 1e-5, 4e-6])
         inp = dict(info, history=hist, theta=th.tolist())
         inp.pop('link_homes_local', None)
         res.evaluations += 1
